@@ -30,6 +30,20 @@ money at inception with non-dyadic strikes (0.9, 1.03, 1.05, 1.3; every path sta
 American binary must be exactly 1 everywhere).  Barrier state and running maximum come from exact comparisons on the
 buffer values.
 
+``relations`` also decides batch independence: every bs_*_price function is re-evaluated on the grid with an expiry
+row (t = 0) and a zero-volatility column appended / prepended; the prices of the original t > 0, v > 0 elements must be
+bitwise identical (torch's elementwise kernels are position-independent - the unchanged tree passing is the
+evidence), so every relation above also holds inside such mixed batches.
+Family ``module_attr_parity``: all histories (depth <= 3, thorough 4) of {flip .call, set .strike, copy.copy,
+copy.deepcopy} on BSEuropeanOption / BSEuropeanBinaryOption: each module's price at its CURRENT (call, strike) must be in
+parity with the opposite flag at that strike and coincide with the functional form.
+
+``relations`` also decides grad-mode independence: every function evaluated under torch.no_grad() and with
+requires_grad inputs must return bitwise the values obtained with autograd enabled and plain inputs (so all relations
+hold in every mode); ``derivative_bound`` compares price() under no_grad with the default mode, and also runs worlds
+whose derivatives are USER SUBCLASSES overriding moneyness() (fx * spot / strike), priced through
+BS*.from_derivative: the relations are evaluated on the contract's own price definition fx * spot.
+
 Slack.  Each computed price carries a rounding error of at most tol = 32 eps(dtype) scale with
   scale_eu = S + K,  scale_bin = 1 + e^s,  scale_lb = (S + K + M)(1 + w)^2,  w = v sqrt(t)
 (derivation in mc/checks/c07.py; C07 confirms the implementation stays within it against the exact
@@ -56,7 +70,8 @@ DT = {"float32": torch.float32, "float64": torch.float64}
 C_TOL = 32
 F64 = torch.float64
 ALL_RELS = ("parity", "binary_sum", "call_bounds", "unit_interval", "monotone_spot", "convex_spot",
-            "monotone_vol", "monotone_time", "lookback_dominance", "american_dominance", "continuity_m0")
+            "monotone_vol", "monotone_time", "lookback_dominance", "american_dominance", "continuity_m0",
+            "batch_independence", "grad_mode_independence")
 
 
 def _axis(spec):
@@ -371,6 +386,75 @@ def relations(ctx, block):
             report("american_dominance", "bs_american_binary_price", bad2,
                    lambda i: f"American binary != 1 although the barrier has been reached: s={g.s[i[0]]}, m={g.m[i[1]]}, t={g.t[i[2]]}, v={g.v[i[3]]}",
                    lambda i: float(am[i]), lambda i: 1.0, cls_extra="_one_after_hit", has_k=False)
+    # ---- a pointwise function must not depend on the rest of the batch ----
+    if "batch_independence" in rels:
+        d = g.dtype
+        zero = torch.zeros(1, dtype=d)
+        calls = [("bs_european_price", lambda t5, v5: F.bs_european_price(g.s5, t5, v5, strike=g.K5, call=True), False),
+                 ("bs_european_price", lambda t5, v5: F.bs_european_price(g.s5, t5, v5, strike=g.K5, call=False), False),
+                 ("bs_european_binary_price", lambda t5, v5: F.bs_european_binary_price(g.s5, t5, v5, call=True), False),
+                 ("bs_european_binary_price", lambda t5, v5: F.bs_european_binary_price(g.s5, t5, v5, call=False), False)]
+        if nM:
+            calls += [("bs_american_binary_price", lambda t5, v5: F.bs_american_binary_price(g.s5, g.m5, t5, v5), True),
+                      ("bs_lookback_price", lambda t5, v5: F.bs_lookback_price(g.s5, g.m5, t5, v5, g.K5), True)]
+        tflat, vflat = g.t5.flatten(), g.v5.flatten()
+        for site, fn, has_m in calls:
+            plain = fn(g.t5, g.v5)
+            shape = torch.broadcast_shapes(plain.shape, (nS, 1, nT, nV, 1))
+            plain = plain.expand(shape)
+            for where in ("appended", "prepended"):
+                # the grid plus an expiry row (t = 0) and a zero-volatility column; log-moneyness 0 is on the grid
+                if where == "appended":
+                    tx, vx = torch.cat([tflat, zero]), torch.cat([vflat, zero])
+                    sl = (slice(None), slice(None), slice(0, nT), slice(0, nV))
+                else:
+                    tx, vx = torch.cat([zero, tflat]), torch.cat([zero, vflat])
+                    sl = (slice(None), slice(None), slice(1, nT + 1), slice(1, nV + 1))
+                mixed = fn(tx.view(1, 1, -1, 1, 1), vx.view(1, 1, 1, -1, 1))
+                mixed = mixed.expand(torch.broadcast_shapes(mixed.shape, (nS, 1, nT + 1, nV + 1, 1)))[sl]
+                same = (mixed == plain) | (mixed.isnan() & plain.isnan())
+                ctx.tick(int(same.numel()), nontrivial=int(same.numel()))
+                if not bool(same.all()):
+                    i = _first(~same)
+                    atm = "_at_the_money" if g.s[i[0]] == 0 else ""
+                    ctx.violation(site, f"batch_independence{atm}",
+                                  f"{site} at s={g.s[i[0]]}, t={g.t[i[2]]}, v={g.v[i[3]]} changes when an expiry row (t=0) and a "
+                                  f"zero-volatility column are {where} to the batch",
+                                  observed=float(mixed[i]), expected=float(plain[i]),
+                                  block=_mini(block, g, "batch_independence", si=[i[0]], mi=[i[1]] if (has_m and nM and same.size(1) > 1) else (list(range(nM))[:1] if has_m else None),
+                                              ti=[i[2]], vi=[i[3]], ki=[i[4]] if same.size(4) > 1 else None))
+    # ---- the ambient autograd mode and differentiable inputs must not change the values ----
+    if "grad_mode_independence" in rels:
+        def variants(with_grad):
+            def rq(x):
+                return x.clone().requires_grad_() if with_grad else x
+            s5, t5, v5 = rq(g.s5), rq(g.t5), rq(g.v5)
+            out = [("bs_european_price", F.bs_european_price(s5, t5, v5, strike=g.K5, call=True), False),
+                   ("bs_european_price", F.bs_european_price(s5, t5, v5, strike=g.K5, call=False), False),
+                   ("bs_european_binary_price", F.bs_european_binary_price(s5, t5, v5, call=True), False),
+                   ("bs_european_binary_price", F.bs_european_binary_price(s5, t5, v5, call=False), False)]
+            if nM:
+                m5 = rq(g.m5)
+                out += [("bs_american_binary_price", F.bs_american_binary_price(s5, m5, t5, v5), True),
+                        ("bs_lookback_price", F.bs_lookback_price(s5, m5, t5, v5, g.K5), True)]
+            return [(a, b.detach(), c) for a, b, c in out]
+        with torch.enable_grad():
+            ref = variants(False)
+            modes = {"requires_grad_inputs": variants(True)}
+        with torch.no_grad():
+            modes["no_grad"] = variants(False)
+        for mode, outs_ in modes.items():
+            for (site, a, has_m), (_, b, _) in zip(ref, outs_):
+                same = (a == b) | (a.isnan() & b.isnan())
+                ctx.tick(int(same.numel()), nontrivial=int(same.numel()))
+                if not bool(same.all()):
+                    i = _first(~same)
+                    i = tuple(i) + (0,) * (5 - len(i))
+                    ctx.violation(site, f"grad_mode_independence_{mode}",
+                                  f"{site} at s={g.s[i[0]]}, t={g.t[i[2]]}, v={g.v[i[3]]} returns a different value under {mode} than with "
+                                  f"autograd enabled and plain inputs", observed=float(b[tuple(i[:b.dim()])]), expected=float(a[tuple(i[:a.dim()])]),
+                                  block=_mini(block, g, "grad_mode_independence", si=[i[0]], mi=[i[1]] if (has_m and nM and same.size(1) > 1) else (list(range(nM))[:1] if has_m else None),
+                                              ti=[i[2]], vi=[i[3]], ki=[i[4]] if same.size(4) > 1 else None))
     # ---- continuity where the running maximum crosses the strike ----
     if "continuity_m0" in rels:
         d = g.dtype
@@ -439,6 +523,22 @@ def relations(ctx, block):
 # ----------------------------------------------------------------------------
 
 ROUTES = ("sim_via_lookback", "sim_via_american_binary", "sim_via_european", "stock_simulate", "set_buffers")
+_BS = {"european": "BSEuropeanOption", "european_binary": "BSEuropeanBinaryOption",
+       "american_binary": "BSAmericanBinaryOption", "lookback": "BSLookbackOption"}
+
+
+def _fx_option(kind, stock, fx, **kw):
+    """User subclass of the pfhedge option class whose moneyness() is fx * spot / strike."""
+    import pfhedge.instruments as I
+    base = {"european": I.EuropeanOption, "lookback": I.LookbackOption, "european_binary": I.EuropeanBinaryOption,
+            "american_binary": I.AmericanBinaryOption}[kind]
+
+    def moneyness(self, time_step=None, log=False):
+        index = ... if time_step is None else [time_step]
+        out = self.fx * self.underlier.spot[..., index] / self.strike
+        return out.log() if log else out
+
+    return type("FX" + base.__name__, (base,), {"fx": fx, "moneyness": moneyness})(stock, **kw)
 
 
 @family
@@ -472,8 +572,15 @@ def derivative_bound(ctx, block):
         holder = {"next": None}
         market.ScriptedSimulate(stock, [lambda n, th, init: {"spot": holder["next"]}])
         market.set_buffers(stock, spot=contents[0])
-        derivs = {nm: market.derivative(kind, stock, T=T, strike=K, call=c) for nm, (kind, c) in kinds.items()}
-        mods = {nm: nn.BlackScholes(d) for nm, d in derivs.items()}
+        fx = block.get("fx")
+        if fx is None:
+            derivs = {nm: market.derivative(kind, stock, T=T, strike=K, call=c) for nm, (kind, c) in kinds.items()}
+            mods = {nm: nn.BlackScholes(d) for nm, d in derivs.items()}
+        else:
+            # USER SUBCLASSES overriding moneyness() (the documented single definition point): moneyness = fx*spot/strike
+            derivs = {nm: _fx_option(kind, stock, fx, strike=K, call=c, maturity=(T - 1) * dt) for nm, (kind, c) in kinds.items()}
+            mods = {nm: getattr(nn, _BS[kinds[nm][0]]).from_derivative(d) for nm, d in derivs.items()}
+        fxv = 1.0 if fx is None else fx
 
         def check_round(rnd):
             route = "initial" if rnd == 0 else hist[rnd - 1]
@@ -481,6 +588,16 @@ def derivative_bound(ctx, block):
             live = slice(0, T - 1)
             spot = stock.spot.to(F64)
             P = {nm: m.price().to(F64)[:, live] for nm, m in mods.items()}
+            with torch.no_grad():
+                Pn = {nm: m.price().to(F64)[:, live] for nm, m in mods.items()}
+            for nm in P:
+                ctx.tick(int(P[nm].numel()), nontrivial=int(P[nm].numel()))
+                if not bool(((P[nm] == Pn[nm]) | (P[nm].isnan() & Pn[nm].isnan())).all()):
+                    r, c = (int(x) for x in (P[nm] != Pn[nm]).nonzero()[0])
+                    ctx.violation(f"BlackScholes({type(derivs[nm]).__name__})", f"bound_price_depends_on_grad_mode_after_{route}",
+                                  f"{nm} price() under torch.no_grad() differs from the price with autograd enabled after history {hist[:rnd]}: "
+                                  f"path {stock.spot[r].tolist()} step {c}", observed=float(Pn[nm][r, c]), expected=float(P[nm][r, c]), block=mb)
+            spot = spot * fxv                                       # the contract's own price definition
             S = spot[:, live]
             Mx = spot.cummax(dim=-1).values[:, live]               # exact on the buffer values
             s = (S / K).log()
@@ -496,7 +613,8 @@ def derivative_bound(ctx, block):
                 ctx.tick(n, nontrivial=n if rnd else 0)
                 if bad.any():
                     r, c = (int(x) for x in bad.nonzero()[0])
-                    ctx.violation(f"BlackScholes({site})", f"{cls}_after_{route}",
+                    ctx.violation(f"BlackScholes({site})" if fx is None else f"BS*.from_derivative(FX{site}: user subclass overriding moneyness)",
+                                  f"{cls}_after_{route}",
                                   f"{text} after history {hist[:rnd]}: path {stock.spot[r].tolist()} step {c}, strike {K}",
                                   observed=float(obs[r, c]), expected=exp if isinstance(exp, str) else float(exp[r, c]), block=mb)
 
@@ -533,6 +651,67 @@ def derivative_bound(ctx, block):
     ctx.outcome(("bound", block["strike"], block["dtype"], len(block["histories"])))
 
 
+ATTR_OPS = ("flip_call", "set_strike", "copy", "deepcopy")
+
+
+@family
+def module_attr_parity(ctx, block):
+    """Attribute-mutation histories on BSEuropeanOption / BSEuropeanBinaryOption: a second module is derived from a
+    call (or put) module by a history of copy.copy / copy.deepcopy / `.call = not .call` / `.strike = K1`; whatever the
+    history, two modules whose CURRENT public attributes are (call=True, K) and (call=False, K) must satisfy parity
+    (C - P = S - K, binC + binP = 1) and a module's price must coincide (bitwise) with the functional form at its
+    current (call, strike).  block: dtype, strike0, strike1, histories."""
+    import copy as _copy
+    import pfhedge.nn as nn
+    import pfhedge.nn.functional as F
+    d = DT[block["dtype"]]
+    eps = torch.finfo(d).eps
+    s = torch.tensor([-0.5, -0.125, 0.0, 0.25, 0.5], dtype=d)
+    t = torch.tensor([0.25, 1.0, 0.0625, 2.0, 0.5], dtype=d)
+    v = torch.tensor([0.25, 0.5, 1.0, 0.125, 0.375], dtype=d)
+    s64 = s.to(F64)
+    for cls_name, fn in (("BSEuropeanOption", F.bs_european_price), ("BSEuropeanBinaryOption", F.bs_european_binary_price)):
+        for call0 in (True, False):
+            for hist in block["histories"]:
+                mods = [getattr(nn, cls_name)(call=call0, strike=block["strike0"])]
+                for op in hist:
+                    cur = mods[-1]
+                    if op == "flip_call":
+                        cur.call = not cur.call
+                    elif op == "set_strike":
+                        cur.strike = block["strike1"] if cur.strike != block["strike1"] else block["strike0"]
+                    elif op == "copy":
+                        mods.append(_copy.copy(cur))
+                    else:
+                        mods.append(_copy.deepcopy(cur))
+                mb = dict(block, histories=[hist])
+                for i, mod in enumerate(mods):
+                    K, call = mod.strike, bool(mod.call)
+                    out = mod.price(s, t, v).to(F64)
+                    kw = {"strike": K} if cls_name == "BSEuropeanOption" else {}
+                    ref = fn(s, t, v, call=call, **kw).to(F64)
+                    partner = fn(s, t, v, call=not call, **kw).to(F64)
+                    ctx.tick(2 * s.numel(), nontrivial=2 * s.numel() if hist else 0)
+                    if cls_name == "BSEuropeanOption":
+                        resid = (out - partner) * (1 if call else -1) - K * torch.expm1(s64)
+                        tol = 2 * C_TOL * eps * K * (1 + s64.exp())
+                    else:
+                        resid = out + partner - 1
+                        tol = 2 * C_TOL * eps * (1 + s64.exp())
+                    if not bool((resid.abs() <= tol).all()):
+                        j = int((~(resid.abs() <= tol)).nonzero()[0])
+                        ctx.violation(cls_name + ".price", "parity_after_attribute_history_" + (hist[-1] if hist else "construction"),
+                                      f"module #{i} of history {hist} (started as call={call0}) now has call={call}, strike={K}; its price and the "
+                                      f"{'put' if call else 'call'} price of the same strike break parity at s={float(s[j])}, t={float(t[j])}, v={float(v[j])}",
+                                      observed=float(resid[j]), expected=0.0, block=mb)
+                    elif not bool((out == ref).all()):
+                        j = int((out != ref).nonzero()[0])
+                        ctx.violation(cls_name + ".price", "price_ignores_current_attributes_after_" + (hist[-1] if hist else "construction"),
+                                      f"module #{i} of history {hist}: price() != functional form at its current call={call}, strike={K}",
+                                      observed=float(out[j]), expected=float(ref[j]), block=mb)
+    ctx.outcome(("attr_parity", block["dtype"], len(block["histories"])))
+
+
 # ----------------------------------------------------------------------------
 
 def run(ctx):
@@ -566,7 +745,7 @@ def run(ctx):
             for vs in ([V] if ctx.quick else [[v] for v in V]):
                 blocks.append({"s": s_spec, "m": M, "t": [t], "v": vs, "K": K, "dtype": dname,
                                "rels": ["parity", "binary_sum", "call_bounds", "unit_interval", "monotone_spot", "convex_spot",
-                                        "lookback_dominance", "american_dominance", "continuity_m0"]})
+                                        "lookback_dominance", "american_dominance", "continuity_m0", "batch_independence", "grad_mode_independence"]})
         # time / volatility axes
         blocks.append({"s": s_spec, "m": M, "t": T, "v": V, "K": K, "dtype": dname, "rels": ["monotone_vol", "monotone_time"]})
     if ctx.thorough:
@@ -592,3 +771,13 @@ def run(ctx):
             Kx = k0 if dname == "float64" else f32v(k0)
             ctx.run("derivative_bound", {"A": [Kx, 0.75, 1.5], "first": Kx, "T": 4, "dt": 0.125, "sigma": 0.5, "strike": Kx,
                                          "dtype": dname, "histories": [list(h) for h in itertools.product(ROUTES, repeat=1)] + [[]]})
+
+    # user subclasses overriding moneyness() (option on fx * spot)
+    for dname in ("float64", "float32"):
+        for fx, Kf in ((1.25, 1.25), (0.5, 0.5)):
+            ctx.run("derivative_bound", {"A": [0.75, 1.0, 1.5], "T": 3, "dt": 0.25, "sigma": 0.25, "strike": Kf, "fx": fx, "dtype": dname,
+                                         "histories": [list(h) for h in itertools.product(ROUTES, repeat=1)] + [[]]})
+    # attribute-mutation histories on the European / binary modules
+    ahist = [[]] + [list(h) for dd in range(1, ctx.pick(3, 4) + 1) for h in itertools.product(ATTR_OPS, repeat=dd)]
+    for dname in ("float64", "float32"):
+        ctx.run("module_attr_parity", {"dtype": dname, "strike0": 1.0, "strike1": 2.5, "histories": ahist})
